@@ -1,0 +1,23 @@
+//go:build verif
+// +build verif
+
+package tar
+
+import "context"
+
+// Pubsub exposes the unexported pubsub for verification harnesses. Only built with the 'verif' tag.
+type Pubsub = pubsub
+
+// NewPubsubForVerif returns a new pubsub bound to ctx.
+func NewPubsubForVerif(ctx context.Context) *Pubsub { return newPubsub(ctx) }
+
+// BufferPool exposes the unexported bufferPool.
+type BufferPool = bufferPool
+
+// Buffer exposes the unexported buffer.
+type Buffer = buffer
+
+// NewBufferPoolForVerif returns a new buffer pool.
+func NewBufferPoolForVerif(bufferSize, maxBuffers uint64) *BufferPool {
+	return newBufferPool(bufferSize, maxBuffers)
+}
